@@ -13,6 +13,7 @@ import ast
 
 from ..astutil import assigned_targets, body_walk, call_name, call_recv, calls_in, fstring_parts, kwarg, names_in, norm, strip_await, walk_no_nested
 from ..shape import Shapes, YES
+from .. import flow
 from .common import in_admission, parmap, typer, where
 
 PROP = "C20"
@@ -290,6 +291,60 @@ def r20_7(ctx):
     ctx.floor("R20.7", n, 2, "multi-line listing lines (LIST, UIDL)")
 
 
+def r20_8(ctx):
+    """POP3 reads its messages by UID straight from the Mailbox object, not through the mailbox's command queue.  Mailbox
+    methods it calls that way must cope with the one window in which the reverse index (uid -> position) disagrees with the
+    lists: Mailbox.expunge() awaits between removing a message from uids/msg_keys and rebuilding the index.  Either that window
+    does not exist, or every such reader validates the index hit (`self.uids[idx] != uid` -> look the UID up where it is)."""
+    p = ctx.p
+    ex = p.func("mbox.Mailbox.expunge")
+    g = ctx.cfg(ex)
+    muts = [n.id for n in g.nodes if n.kind == "stmt" and isinstance(n.ast, ast.Delete) and any(norm(t.value) in ("self.uids", "self.msg_keys") for t in n.ast.targets if isinstance(t, ast.Subscript))]
+    rebuild = {n.id for n in g.nodes if n.ast is not None and n.kind == "stmt" and any(call_name(c) == "_rebuild_index_dicts" for c in calls_in(n.ast))}
+    awaits = {n.id for n in g.nodes if n.ast is not None and n.kind in ("stmt", "with_enter") and any(isinstance(x, ast.Await) for x in walk_no_nested(n.ast))}
+    window = False
+    for m_ in muts:
+        seen = flow.reach(g, [e.dst for e in g.out[m_] if e.label in flow.NORMAL], flow.NORMAL, avoid=lambda n: n in rebuild)
+        ctx.paths_explored += len(seen)
+        if any(a in seen for a in awaits):
+            window = True
+    # Mailbox methods the POP3 handler calls outside an admission region
+    unq = set()
+    for fi in p.funcs_in("pop3_client"):
+        for c in calls_in(fi.node):
+            r = call_recv(c)
+            if r is not None and norm(r) in ("self.mbox", "mbox") and not in_admission(c, fi):
+                unq.add(call_name(c))
+    readers = []
+    for nm in sorted(unq):
+        m = p.resolve_method("Mailbox", nm)
+        if m is not None and any(isinstance(x, ast.Subscript) and norm(x.value) in ("self._uid_to_idx", "self._msg_key_to_idx") for x in body_walk(m.node)):
+            readers.append(m)
+    ctx.floor("R20.8", len(unq), 2, "Mailbox methods called by the POP3 handler outside the command queue")
+    if not window:
+        ctx.ok("R20.8", where(ex), "expunge() rebuilds the reverse index before it awaits anything: no stale window")
+        return
+    for m in readers:
+        ctx.analysed(m)
+        okv = False
+        for iff in [x for x in body_walk(m.node) if isinstance(x, ast.If)]:
+            t = norm(iff.test, 300)
+            if "self.uids[" in t and "!=" in t and any(isinstance(s_, (ast.Assign, ast.Try, ast.Raise)) for s_ in iff.body):
+                okv = True
+        if okv:
+            ctx.ok("R20.8", where(m), "index hit validated against uids before it is used (expunge has a stale-index window)")
+        else:
+            ctx.bad(
+                "R20.8", m.module, m.qual, "reverse-index hit used without validation",
+                f"{m.name}() is called by the POP3 handler outside the command queue and trusts `_uid_to_idx` although expunge() awaits between "
+                "shortening uids/msg_keys and rebuilding that index: during an IMAP EXPUNGE / MOVE / another POP3 QUIT, RETR/TOP/LIST get the "
+                "message that slid into the stale position (or IndexError ends the session)",
+                m.node.lineno,
+            )
+    if not readers:
+        ctx.ok("R20.8", where(ex), "no unqueued reader consults the reverse index", nontrivial=False)
+
+
 def run(ctx):
     ctx.do(r20_1)
     ctx.do(r20_2)
@@ -297,6 +352,7 @@ def run(ctx):
     ctx.do(r20_4)
     ctx.do(r20_5)
     ctx.do(r20_7)
+    ctx.do(r20_8)
     from . import c10, c16
     ctx.do(c10.r10_4_units, modules=("pop3_client", "mbox"))
     ctx.do(c16.r16_1)
